@@ -211,9 +211,13 @@ def gen_var(r):
     if kind == 'mass':
         var['default']['u'] = 'fg'
         var['units'] = r.choice(['fg', None])
+        if var['units'] and r.random() < 0.4:
+            var['default']['u'] = r.choice(['pg', 'ng'])      # declared units win over the unit the default is written in
     if kind == 'time':
         var['default']['u'] = 'ms'
         var['units'] = r.choice(['ms', None])
+        if var['units'] and r.random() < 0.4:
+            var['default']['u'] = 's'
     if kind == 'qlist':
         for q in var['default']:
             q['u'] = 'fg'
